@@ -3,14 +3,14 @@
    with what the specification demands of it.
 
    Fam = "norm"    : the normalize_chunks grid  Shapes x per-axis spec menu x
-                     Limits x Itemsizes x previous_chunks menu
+                     Limits x Itemsizes x previous_chunks menu (3-d shapes: Limits3)
    Fam = "rechunk" : every (source, target) pair of chunkings of every shape in
                      Shapes, ZShapes and the 1-d extents 0..N (when N >= 0); for the
                      1-d shapes and ZShapes, chunkings with one zero-width block are
                      included on axes of extent 1..Z                              *)
 EXTENDS Rechunk
 
-CONSTANTS Fam, N, Z, Shapes, ZShapes, Limits, Itemsizes
+CONSTANTS Fam, N, Z, Shapes, ZShapes, Limits, Limits3, Itemsizes
 
 VARIABLES case, exp, out
 
@@ -36,13 +36,16 @@ PrevMenu(shape) == { <<>>,
                      [d \in DOMAIN shape |-> Uniform(shape[d], 1)],
                      [d \in DOMAIN shape |-> <<shape[d]>>],
                      [d \in DOMAIN shape |-> Uniform(shape[d], IF d % 2 = 1 THEN 2 ELSE 3)],
-                     [d \in DOMAIN shape |-> Irregular(shape[d])] }
+                     [d \in DOMAIN shape |-> Irregular(shape[d])],
+                     \* a zero-width block in front (dask produces such chunkings itself)
+                     [d \in DOMAIN shape |-> IF shape[d] = 0 THEN <<0>> ELSE <<0, shape[d]>>] }
 
 HasAuto(spec) == \E d \in DOMAIN spec : IsAuto(spec[d])
 
 NormCases ==
   UNION { UNION { IF HasAuto(sp)
-                  THEN [fam: {"norm"}, shape: {sh}, spec: {sp}, limit: Limits, itemsize: Itemsizes, prev: PrevMenu(sh)]
+                  THEN [fam: {"norm"}, shape: {sh}, spec: {sp}, limit: IF Len(sh) >= 3 THEN Limits3 ELSE Limits,
+                        itemsize: Itemsizes, prev: PrevMenu(sh)]
                   ELSE [fam: {"norm"}, shape: {sh}, spec: {sp}, limit: {Max(Limits)}, itemsize: {Min(Itemsizes)}, prev: {<<>>}]
                   : sp \in PerAxis(sh) }
           : sh \in Shapes }
@@ -82,11 +85,10 @@ Next == UNCHANGED <<case, exp, out>>
 
 \* the normalize_chunks contract can be met on every case that is not an error
 WitnessOK == (case.fam = "norm" /\ ~exp.err) =>
-               \A tol \in {<<1, 1>>, <<5, 4>>} :
-                 NormOK(case.shape, case.spec, case.limit, case.itemsize, tol, NormWitness(case.shape, case.spec))
+               NormOK(case.shape, case.spec, case.limit, case.itemsize, <<1, 1>>, NormWitness(case.shape, case.spec))
 
 \* ... and really constrains: a result with a wrong sum is rejected
-ContractRejects == (case.fam = "norm" /\ ~exp.err /\ case.shape # <<>>) =>
+ContractRejects == (case.fam = "norm" /\ ~exp.err /\ case.shape # <<>> /\ case.prev = <<>>) =>
                      LET w   == NormWitness(case.shape, case.spec)
                          bad == [w EXCEPT ![1] = <<Head(w[1]) + 1>> \o Tail(w[1])]
                      IN ~NormOK(case.shape, case.spec, case.limit, case.itemsize, <<1, 1>>, bad)
@@ -100,10 +102,12 @@ RefTiles == case.fam = "rechunk" =>
 
 \* per-axis tilings compose: each new n-d block assembled from the listed pieces
 \* of old blocks holds exactly the cells of that block of the identity array
+\* (evaluated on the n-d cases whose target has at most 4 blocks: the composition
+\* is the same Cart/Ravel arithmetic for every block, RefTiles covers every case)
 RECURSIVE BlockIdx(_)
 BlockIdx(chunks) == IF chunks = <<>> THEN {<<>>}
                     ELSE { <<b>> \o r : b \in DOMAIN Head(chunks), r \in BlockIdx(Tail(chunks)) }
-BlocksFromPieces == case.fam = "rechunk" =>
+BlocksFromPieces == (case.fam = "rechunk" /\ Len(case.shape) >= 2 /\ Cardinality(BlockIdx(case.target)) <= 4) =>
    LET pcs == [d \in DOMAIN case.shape |-> RefPieces(case.chunks[d], case.target[d])] IN
    \A b \in BlockIdx(case.target) :
       BlockFromPieces(case.shape, case.chunks, pcs, b) = BlockCells(case.shape, case.target, b)
